@@ -48,6 +48,7 @@ type inlineCand struct {
 }
 
 type inlineSite struct {
+	pkg   *packages.Package // the package the call site is in (may differ from the helper's)
 	file  *ast.File
 	call  *ast.CallExpr
 	stmt  ast.Stmt // the statement to replace
@@ -236,153 +237,172 @@ func normalise(mod []*packages.Package, fset *token.FileSet, known map[string]bo
 			path []ast.Node
 		}
 		abort := map[*types.Func]bool{}
-		for _, f := range p.Syntax {
-			var stack []ast.Node
-			ast.Inspect(f, func(n ast.Node) bool {
-				if n == nil {
-					stack = stack[:len(stack)-1]
-					return true
-				}
-				stack = append(stack, n)
-				id, ok := n.(*ast.Ident)
-				if !ok {
-					return true
-				}
-				fn, ok := info.Uses[id].(*types.Func)
-				if !ok {
-					return true
-				}
-				cd := cands[fn]
-				if cd == nil {
-					return true
-				}
-				// the identifier must be the Fun (or Sel of the Fun) of a call
-				var call *ast.CallExpr
-				i := len(stack) - 2
-				if i >= 0 {
-					if sel, ok := stack[i].(*ast.SelectorExpr); ok && sel.Sel == id {
-						i--
-					}
-				}
-				if i >= 0 {
-					if ce, ok := stack[i].(*ast.CallExpr); ok && (ce.Fun == ast.Expr(id) || isSelOf(ce.Fun, id)) {
-						call = ce
-					}
-				}
-				if call == nil {
-					abort[fn] = true
-					return true
-				}
-				// statement position: the innermost enclosing statement that is a direct
-				// child of a block / case body
-				var stmt ast.Stmt
-				kind := ""
-				si := -1
-				for k := i - 1; k >= 0; k-- {
-					if st, ok := stack[k].(ast.Stmt); ok {
-						stmt, si = st, k
-						break
-					}
-					if _, isLit := stack[k].(*ast.FuncLit); isLit {
-						break
-					}
-				}
-				if stmt == nil {
-					abort[fn] = true
-					return true
-				}
-				direct := si == i-1 // the call is an operand of the statement itself
-				switch st := stmt.(type) {
-				case *ast.ExprStmt:
-					if direct && st.X == ast.Expr(call) {
-						kind = "expr"
-					} else {
-						kind = "hoist"
-					}
-				case *ast.AssignStmt:
-					switch {
-					case direct && len(st.Rhs) == 1 && st.Rhs[0] == ast.Expr(call) && st.Tok == token.DEFINE:
-						kind = "define"
-					case direct && len(st.Rhs) == 1 && st.Rhs[0] == ast.Expr(call) && st.Tok == token.ASSIGN:
-						kind = "assign"
-					default:
-						kind = "hoist"
-					}
-				case *ast.ReturnStmt:
-					if direct && len(st.Results) == 1 && st.Results[0] == ast.Expr(call) {
-						kind = "return"
-					} else {
-						kind = "hoist"
-					}
-				case *ast.IfStmt:
-					// only from the condition of the statement itself (not from its blocks: those have their own statements)
-					if st.Cond != nil && st.Cond.Pos() <= call.Pos() && call.End() <= st.Cond.End() {
-						kind = "hoist"
-					}
-				case *ast.IncDecStmt, *ast.SendStmt:
-					kind = "hoist"
-				case *ast.DeclStmt:
-					if gd, ok := st.Decl.(*ast.GenDecl); ok && gd.Tok == token.VAR {
-						kind = "hoist"
-					}
-				}
-				if kind == "" {
-					abort[fn] = true
-					return true
-				}
-				// an if statement in an else-if position cannot be prefixed
-				if ifs, ok := stmt.(*ast.IfStmt); ok && si-1 >= 0 {
-					if par, ok := stack[si-1].(*ast.IfStmt); ok && par.Else == ast.Stmt(ifs) {
-						abort[fn] = true
-						return true
-					}
-				}
-				if kind == "hoist" {
-					// single result, and everything else the statement evaluates is free of calls
-					if fn.Type().(*types.Signature).Results().Len() != 1 || !restIsPure(info, stmt, call, pureFns) {
-						abort[fn] = true
-						return true
-					}
-				}
-				// the statement must be a direct child of a block / case body (not an if/for/switch init)
-				okParent := false
-				if si-1 >= 0 {
-					switch par := stack[si-1].(type) {
-					case *ast.BlockStmt:
-						okParent = true
-					case *ast.CaseClause:
-						for _, bs := range par.Body {
-							if bs == stmt {
-								okParent = true
-							}
-						}
-					case *ast.CommClause:
-						for _, bs := range par.Body {
-							if bs == stmt {
-								okParent = true
-							}
-						}
-					}
-				}
-				if !okParent {
-					abort[fn] = true
-					return true
-				}
-				// enclosing function must not be the candidate itself (recursion handled) nor another candidate of this pass whose body we copy
-				sc := p.Types.Scope().Innermost(call.Pos())
-				cd.sites = append(cd.sites, &inlineSite{file: f, call: call, stmt: stmt, kind: kind, scope: sc})
-				return true
-			})
+		// helpers that may be inlined into other packages: everything they name from their own
+		// package is exported
+		crossOK := map[*types.Func]bool{}
+		for obj, cd := range cands {
+			crossOK[obj] = exportedOnly(info, p.Types, cd.decl)
 		}
-		// uses from other packages abort
+		scan := func(q *packages.Package) {
+			qinfo := q.TypesInfo
+			for _, f := range q.Syntax {
+				var stack []ast.Node
+				ast.Inspect(f, func(n ast.Node) bool {
+					if n == nil {
+						stack = stack[:len(stack)-1]
+						return true
+					}
+					stack = append(stack, n)
+					id, ok := n.(*ast.Ident)
+					if !ok {
+						return true
+					}
+					fn, ok := qinfo.Uses[id].(*types.Func)
+					if !ok {
+						return true
+					}
+					cd := cands[fn]
+					if cd == nil {
+						return true
+					}
+					// the identifier must be the Fun (or Sel of the Fun) of a call
+					var call *ast.CallExpr
+					i := len(stack) - 2
+					if i >= 0 {
+						if sel, ok := stack[i].(*ast.SelectorExpr); ok && sel.Sel == id {
+							i--
+						}
+					}
+					if i >= 0 {
+						if ce, ok := stack[i].(*ast.CallExpr); ok && (ce.Fun == ast.Expr(id) || isSelOf(ce.Fun, id)) {
+							call = ce
+						}
+					}
+					if call == nil {
+						abort[fn] = true
+						return true
+					}
+					// statement position: the innermost enclosing statement that is a direct
+					// child of a block / case body
+					var stmt ast.Stmt
+					kind := ""
+					si := -1
+					for k := i - 1; k >= 0; k-- {
+						if st, ok := stack[k].(ast.Stmt); ok {
+							stmt, si = st, k
+							break
+						}
+						if _, isLit := stack[k].(*ast.FuncLit); isLit {
+							break
+						}
+					}
+					if stmt == nil {
+						abort[fn] = true
+						return true
+					}
+					direct := si == i-1 // the call is an operand of the statement itself
+					switch st := stmt.(type) {
+					case *ast.ExprStmt:
+						if direct && st.X == ast.Expr(call) {
+							kind = "expr"
+						} else {
+							kind = "hoist"
+						}
+					case *ast.AssignStmt:
+						switch {
+						case direct && len(st.Rhs) == 1 && st.Rhs[0] == ast.Expr(call) && st.Tok == token.DEFINE:
+							kind = "define"
+						case direct && len(st.Rhs) == 1 && st.Rhs[0] == ast.Expr(call) && st.Tok == token.ASSIGN:
+							kind = "assign"
+						default:
+							kind = "hoist"
+						}
+					case *ast.ReturnStmt:
+						if direct && len(st.Results) == 1 && st.Results[0] == ast.Expr(call) {
+							kind = "return"
+						} else {
+							kind = "hoist"
+						}
+					case *ast.IfStmt:
+						// only from the condition of the statement itself (not from its blocks: those have their own statements)
+						if st.Cond != nil && st.Cond.Pos() <= call.Pos() && call.End() <= st.Cond.End() {
+							kind = "hoist"
+						}
+					case *ast.IncDecStmt, *ast.SendStmt:
+						kind = "hoist"
+					case *ast.DeclStmt:
+						if gd, ok := st.Decl.(*ast.GenDecl); ok && gd.Tok == token.VAR {
+							kind = "hoist"
+						}
+					}
+					if kind == "" {
+						abort[fn] = true
+						return true
+					}
+					// an if statement in an else-if position cannot be prefixed
+					if ifs, ok := stmt.(*ast.IfStmt); ok && si-1 >= 0 {
+						if par, ok := stack[si-1].(*ast.IfStmt); ok && par.Else == ast.Stmt(ifs) {
+							abort[fn] = true
+							return true
+						}
+					}
+					if kind == "hoist" {
+						// single result, and everything else the statement evaluates is free of calls
+						if fn.Type().(*types.Signature).Results().Len() != 1 || !restIsPure(qinfo, stmt, call, pureFns) {
+							abort[fn] = true
+							return true
+						}
+					}
+					// the statement must be a direct child of a block / case body (not an if/for/switch init)
+					okParent := false
+					if si-1 >= 0 {
+						switch par := stack[si-1].(type) {
+						case *ast.BlockStmt:
+							okParent = true
+						case *ast.CaseClause:
+							for _, bs := range par.Body {
+								if bs == stmt {
+									okParent = true
+								}
+							}
+						case *ast.CommClause:
+							for _, bs := range par.Body {
+								if bs == stmt {
+									okParent = true
+								}
+							}
+						}
+					}
+					if !okParent {
+						abort[fn] = true
+						return true
+					}
+					// enclosing function must not be the candidate itself (recursion handled) nor another candidate of this pass whose body we copy
+					if q != p && !crossOK[fn] {
+						abort[fn] = true
+						return true
+					}
+					sc := q.Types.Scope().Innermost(call.Pos())
+					cd.sites = append(cd.sites, &inlineSite{pkg: q, file: f, call: call, stmt: stmt, kind: kind, scope: sc})
+					return true
+				})
+			}
+		}
+		scan(p)
+		// uses from other packages: inlined there as well when the helper names nothing
+		// unexported, otherwise the helper stays
 		for _, q := range mod {
 			if q == p {
 				continue
 			}
+			used := false
 			for _, obj := range q.TypesInfo.Uses {
 				if fn, ok := obj.(*types.Func); ok && cands[fn] != nil {
-					abort[fn] = true
+					used = true
 				}
+			}
+			if used {
+				scan(q)
 			}
 		}
 		for fn := range abort {
@@ -458,6 +478,9 @@ func normalise(mod []*packages.Package, fset *token.FileSet, known map[string]bo
 			})
 			for _, s := range cd.sites {
 				for name, o := range free {
+					if s.pkg != p && o.Parent() != types.Universe {
+						continue // qualified with the package name at this site
+					}
 					if _, got := s.scope.LookupParent(name, s.call.Pos()); got != o {
 						ok = false
 					}
@@ -474,6 +497,8 @@ func normalise(mod []*packages.Package, fset *token.FileSet, known map[string]bo
 			for _, s := range cd.sites {
 				inlineUniq++
 				tag := fmt.Sprintf("_inl%d", inlineUniq)
+				sinfo := s.pkg.TypesInfo
+				cross := s.pkg != p
 				if imports[s.file] == nil {
 					imports[s.file] = map[string]string{}
 				}
@@ -483,12 +508,12 @@ func normalise(mod []*packages.Package, fset *token.FileSet, known map[string]bo
 						if strings.Trim(is.Path.Value, "\"`") != path {
 							continue
 						}
-						if pn, ok := info.Implicits[is].(*types.PkgName); ok && is.Name == nil {
+						if pn, ok := sinfo.Implicits[is].(*types.PkgName); ok && is.Name == nil {
 							reused[s.file] = append(reused[s.file], pn)
 							return pn.Name()
 						}
 						if is.Name != nil && is.Name.Name != "_" && is.Name.Name != "." {
-							if pn, ok := info.Defs[is.Name].(*types.PkgName); ok {
+							if pn, ok := sinfo.Defs[is.Name].(*types.PkgName); ok {
 								reused[s.file] = append(reused[s.file], pn)
 							}
 							return is.Name.Name
@@ -502,7 +527,7 @@ func normalise(mod []*packages.Package, fset *token.FileSet, known map[string]bo
 					return a
 				}
 				qual := func(q *types.Package) string {
-					if q == p.Types {
+					if q == s.pkg.Types {
 						return ""
 					}
 					return alias(q.Path())
@@ -520,7 +545,7 @@ func normalise(mod []*packages.Package, fset *token.FileSet, known map[string]bo
 				// are threaded to a copy of that branch (see threadPlan)
 				var plan *threadPlan
 				if !cd.lit && (s.kind == "define" || s.kind == "assign") {
-					plan = planThreading(info, s, cd, nres)
+					plan = planThreading(sinfo, info, s, cd, nres)
 				}
 				ftag := tag + "f"
 				var walk func(n ast.Node, inLit bool)
@@ -532,9 +557,20 @@ func normalise(mod []*packages.Package, fset *token.FileSet, known map[string]bo
 								walk(x.Body, true)
 								return false
 							}
+						case *ast.SelectorExpr:
+							// pkg.Name where pkg is the site's own package: the qualifier goes
+							if id, ok := x.X.(*ast.Ident); ok && cross {
+								if pn, ok := info.Uses[id].(*types.PkgName); ok && pn.Imported() == s.pkg.Types {
+									bedits = append(bedits, textEdit{off(x.Pos()), off(x.Sel.Pos()), ""})
+									return false
+								}
+							}
 						case *ast.Ident:
 							if pn, ok := info.Uses[x].(*types.PkgName); ok {
 								bedits = append(bedits, textEdit{off(x.Pos()), off(x.End()), alias(pn.Imported().Path())})
+							} else if o := info.Uses[x]; cross && o != nil && o.Pkg() == p.Types && o.Parent() == p.Types.Scope() {
+								// a package-level name of the helper's package, seen from another package
+								bedits = append(bedits, textEdit{off(x.Pos()), off(x.Pos()), alias(p.Types.Path()) + "."})
 							}
 						case *ast.ReturnStmt:
 							if inLit || cd.lit {
@@ -586,7 +622,7 @@ func normalise(mod []*packages.Package, fset *token.FileSet, known map[string]bo
 						break
 					}
 					recvT := sig.Recv().Type()
-					xT := info.TypeOf(sel.X)
+					xT := sinfo.TypeOf(sel.X)
 					x := argText(sel.X)
 					switch {
 					case types.Identical(xT, recvT):
@@ -616,7 +652,7 @@ func normalise(mod []*packages.Package, fset *token.FileSet, known map[string]bo
 					// a parameter the body only reads, bound to a plain local variable of the caller
 					// with the same name: no copy is made, the body reads the caller's variable
 					if id, ok := a.(*ast.Ident); ok && pt.Name() == id.Name && readOnlyParam(info, cd.decl, pt) {
-						if v, ok := info.Uses[id].(*types.Var); ok && !v.IsField() && v.Parent() != p.Types.Scope() && types.Identical(v.Type(), pt.Type()) {
+						if v, ok := sinfo.Uses[id].(*types.Var); ok && !v.IsField() && v.Parent() != s.pkg.Types.Scope() && types.Identical(v.Type(), pt.Type()) {
 							np++
 							continue
 						}
@@ -764,6 +800,9 @@ func normalise(mod []*packages.Package, fset *token.FileSet, known map[string]bo
 					// the result variable is declared in front of the statement (unique name, no
 					// enclosing block: the statement may itself declare names that must stay visible)
 					prefix := resDecl.String() + text + "}; "
+					if cross {
+						deleted[s.file] = append(deleted[s.file], [2]token.Pos{s.call.Fun.Pos(), s.call.Fun.End()})
+					}
 					siteEdits[s.file] = append(siteEdits[s.file],
 						textEdit{off(s.stmt.Pos()), off(s.stmt.Pos()), prefix},
 						textEdit{off(s.call.Pos()), off(s.call.End()), resNames[0]})
@@ -773,6 +812,9 @@ func normalise(mod []*packages.Package, fset *token.FileSet, known map[string]bo
 					break
 				}
 				out.WriteString(tail)
+				if cross {
+					deleted[s.file] = append(deleted[s.file], [2]token.Pos{s.call.Fun.Pos(), s.call.Fun.End()})
+				}
 				siteEdits[s.file] = append(siteEdits[s.file], textEdit{off(s.stmt.Pos()), off(s.stmt.End()), out.String()})
 				if plan != nil && len(plan.failing) > 0 && plan.allDecided {
 					// every exit was sent to its side of the caller's test: the test is dead
@@ -797,22 +839,30 @@ func normalise(mod []*packages.Package, fset *token.FileSet, known map[string]bo
 		}
 		// imports that lose their last use (their only users were dropped declarations) become blank imports
 		for f := range edits {
+			finfo := info
+			for _, q := range mod {
+				for _, qf := range q.Syntax {
+					if qf == f {
+						finfo = q.TypesInfo
+					}
+				}
+			}
 			for _, is := range f.Imports {
 				var pn *types.PkgName
 				if is.Name != nil {
 					if is.Name.Name == "_" || is.Name.Name == "." {
 						continue
 					}
-					pn, _ = info.Defs[is.Name].(*types.PkgName)
+					pn, _ = finfo.Defs[is.Name].(*types.PkgName)
 				} else {
-					pn, _ = info.Implicits[is].(*types.PkgName)
+					pn, _ = finfo.Implicits[is].(*types.PkgName)
 				}
 				if pn == nil {
 					continue
 				}
 				uses := 0
 				ast.Inspect(f, func(n ast.Node) bool {
-					if id, ok := n.(*ast.Ident); ok && info.Uses[id] == types.Object(pn) {
+					if id, ok := n.(*ast.Ident); ok && finfo.Uses[id] == types.Object(pn) {
 						gone := false
 						for _, d := range deleted[f] {
 							if d[0] <= id.Pos() && id.End() <= d[1] {
@@ -1057,7 +1107,7 @@ type threadPlan struct {
 	allDecided bool
 }
 
-func planThreading(info *types.Info, s *inlineSite, cd *inlineCand, nres int) *threadPlan {
+func planThreading(sinfo, info *types.Info, s *inlineSite, cd *inlineCand, nres int) *threadPlan {
 	as, ok := s.stmt.(*ast.AssignStmt)
 	if !ok || len(as.Lhs) != nres {
 		return nil
@@ -1092,8 +1142,10 @@ func planThreading(info *types.Info, s *inlineSite, cd *inlineCand, nres int) *t
 		if !ok {
 			return false
 		}
-		_, isNil := info.Uses[id].(*types.Nil)
-		return isNil
+		// the identifier belongs to the caller's or to the helper's syntax tree
+		_, a := sinfo.Uses[id].(*types.Nil)
+		_, b := info.Uses[id].(*types.Nil)
+		return a || b
 	}
 	switch c := ifs.Cond.(type) {
 	case *ast.BinaryExpr:
@@ -1262,4 +1314,44 @@ func calledFunc(info *types.Info, call *ast.CallExpr) *types.Func {
 		return fn
 	}
 	return nil
+}
+
+// exportedOnly: everything the function declaration names from its own package
+// (package-level objects, fields, methods; in its signature and its body) is
+// exported, so that its text is meaningful in another package once the
+// package-level names are qualified.
+func exportedOnly(info *types.Info, pkg *types.Package, fd *ast.FuncDecl) bool {
+	if fd.Recv != nil {
+		return false // methods keep their receiver's package
+	}
+	ok := true
+	ast.Inspect(fd, func(n ast.Node) bool {
+		id, isId := n.(*ast.Ident)
+		if !isId {
+			return ok
+		}
+		o := info.Uses[id]
+		if o == nil || o.Pkg() != pkg {
+			return ok
+		}
+		switch x := o.(type) {
+		case *types.Var:
+			if x.IsField() && !x.Exported() {
+				ok = false
+			}
+			if !x.IsField() && x.Parent() == pkg.Scope() && !x.Exported() {
+				ok = false
+			}
+		case *types.Func:
+			if !x.Exported() {
+				ok = false
+			}
+		case *types.TypeName, *types.Const:
+			if o.Parent() == pkg.Scope() && !o.Exported() {
+				ok = false
+			}
+		}
+		return ok
+	})
+	return ok
 }
